@@ -253,6 +253,67 @@ pub fn h_ser_length_u16<S: Src>(s: &mut S) {
         Err(_) => vassert!(s, false, "length_be_u16 succeeds"),
     }
 }
+// ---------------------------------------------------------------- cookie-factory shim (/verif/verus/shim_cf.rs)
+// The contracts the Verus unit `serialize` ASSUMES for cookie-factory, checked on the real cookie-factory 0.3.3 with a Vec<u8>
+// writer that already holds a prefix: every primitive appends exactly its bytes (never fails on a Vec), `tuple` runs its
+// components in order, `gen(&f, Vec::new())` returns f's bytes and their count, a failing component's error comes out
+// unchanged and nothing after it runs, Result::and_then chains, a `&F` serializer is F.
+pub fn h_shim_cf_bytes<S: Src>(s: &mut S) {
+    use ::cookie_factory::bytes::{be_u16, be_u24, be_u8};
+    use ::cookie_factory::combinator::slice;
+    use ::cookie_factory::{gen, WriteContext};
+    let p: u8 = s.u8();
+    let a: u8 = s.u8();
+    let b: u16 = s.u16();
+    let c: u32 = s.u32();
+    let d: [u8; 3] = s.bytes();
+    let n = s.usize();
+    vassume!(s, n <= 3);
+    let mut w = Vec::new();
+    w.push(p);
+    let r = gen(be_u8(a), w);
+    vassert!(s, matches!(&r, Ok((v, 1)) if v.len() == 2 && v[0] == p && v[1] == a), "shim cf be_u8: appends the byte to what the writer holds; count 1");
+    let r = gen(be_u16(b), Vec::new());
+    vassert!(s, matches!(&r, Ok((v, 2)) if v.len() == 2 && v[0] == (b >> 8) as u8 && v[1] == (b & 0xff) as u8), "shim cf be_u16: big-endian, 2 bytes");
+    let r = gen(be_u24(c), Vec::new());
+    vassert!(s, matches!(&r, Ok((v, 3)) if v.len() == 3 && v[0] == ((c >> 16) & 0xff) as u8 && v[1] == ((c >> 8) & 0xff) as u8 && v[2] == (c & 0xff) as u8), "shim cf be_u24: the low 24 bits big-endian, 3 bytes");
+    let r = gen(slice(&d[..n]), Vec::new());
+    vassert!(s, matches!(&r, Ok((v, k)) if v.len() == n && *k == n as u64 && (n < 1 || v[0] == d[0]) && (n < 2 || v[1] == d[1]) && (n < 3 || v[2] == d[2])), "shim cf slice(&[u8]): exactly the bytes");
+    let owned: Vec<u8> = d[..n].to_vec();
+    let r = gen(slice(owned), Vec::new());
+    vassert!(s, matches!(&r, Ok((v, k)) if v.len() == n && *k == n as u64 && (n < 1 || v[0] == d[0]) && (n < 3 || v[2] == d[2])), "shim cf slice(Vec<u8>): exactly the bytes");
+    // a reference to a serializer is that serializer; gen on &f
+    let f = be_u16(b);
+    let r1 = gen(&f, Vec::new());
+    vassert!(s, matches!(&r1, Ok((v, 2)) if v[0] == (b >> 8) as u8 && v[1] == (b & 0xff) as u8), "shim cf gen(&f, Vec::new()): f's bytes and their count");
+    // Result::and_then with a serializer as the continuation
+    let r2 = be_u8(a)(WriteContext::from(Vec::new())).and_then(slice(&d[..n]));
+    vassert!(s, matches!(&r2, Ok(ctx) if ctx.write.len() == 1 + n && ctx.write[0] == a && (n < 1 || ctx.write[1] == d[0])), "shim cf and_then: the continuation runs on the first result");
+}
+fn nyi(_: ::cookie_factory::WriteContext<Vec<u8>>) -> ::cookie_factory::GenResult<Vec<u8>> { Err(GenError::NotYetImplemented) }
+pub fn h_shim_cf_tuple<S: Src>(s: &mut S) {
+    use ::cookie_factory::bytes::be_u8;
+    use ::cookie_factory::gen;
+    use ::cookie_factory::sequence::tuple;
+    let x: [u8; 8] = s.bytes();
+    let r = gen(tuple((be_u8(x[0]), be_u8(x[1]))), Vec::new());
+    vassert!(s, matches!(&r, Ok((v, 2)) if v.len() == 2 && v[0] == x[0] && v[1] == x[1]), "shim cf tuple2: components in order");
+    let r = gen(tuple((be_u8(x[0]), be_u8(x[1]), be_u8(x[2]))), Vec::new());
+    vassert!(s, matches!(&r, Ok((v, 3)) if v.len() == 3 && v[0] == x[0] && v[1] == x[1] && v[2] == x[2]), "shim cf tuple3: components in order");
+    let r = gen(tuple((be_u8(x[0]), be_u8(x[1]), be_u8(x[2]), be_u8(x[3]))), Vec::new());
+    vassert!(s, matches!(&r, Ok((v, 4)) if v.len() == 4 && v[0] == x[0] && v[3] == x[3] && v[2] == x[2]), "shim cf tuple4: components in order");
+    let r = gen(tuple((be_u8(x[0]), be_u8(x[1]), be_u8(x[2]), be_u8(x[3]), be_u8(x[4]), be_u8(x[5]))), Vec::new());
+    vassert!(s, matches!(&r, Ok((v, 6)) if v.len() == 6 && v[0] == x[0] && v[1] == x[1] && v[2] == x[2] && v[3] == x[3] && v[4] == x[4] && v[5] == x[5]), "shim cf tuple6: components in order");
+    let r = gen(tuple((be_u8(x[0]), be_u8(x[1]), be_u8(x[2]), be_u8(x[3]), be_u8(x[4]), be_u8(x[5]), be_u8(x[6]), be_u8(x[7]))), Vec::new());
+    vassert!(s, matches!(&r, Ok((v, 8)) if v.len() == 8 && v[0] == x[0] && v[1] == x[1] && v[2] == x[2] && v[3] == x[3] && v[4] == x[4] && v[5] == x[5] && v[6] == x[6] && v[7] == x[7]), "shim cf tuple8: components in order");
+    // the first failure wins and is returned unchanged
+    let r = gen(tuple((be_u8(x[0]), nyi, be_u8(x[2]))), Vec::new());
+    vassert!(s, matches!(&r, Err(GenError::NotYetImplemented)), "shim cf tuple: a failing component's error is the result");
+    let r = gen(tuple((nyi, be_u8(x[1]))), Vec::new());
+    vassert!(s, matches!(&r, Err(GenError::NotYetImplemented)), "shim cf tuple: a failing first component's error is the result");
+}
+harness!(shim_cf_bytes, unwind = 6, h_shim_cf_bytes);
+harness!(shim_cf_tuple, unwind = 10, h_shim_cf_tuple);
 harness!(leaf_ser_length_u24, unwind = 4, h_ser_length_u24);
 harness!(leaf_ser_length_u16, unwind = 4, h_ser_length_u16);
 harness!(leaf_ser_finished, unwind = 12, h_ser_opaque::<_, 0>);
